@@ -3,7 +3,7 @@
    The C++ tokenizer/parser (extern/filereaderlp) is an oracle, not modelled: the theorems
    are about the writer's conventions, the reader's conversion (cylp.pyx) and the text wrapper. *)
 From Coq Require Import List ZArith NArith QArith Qcanon Bool Arith.
-From Dimod Require Import Base.Util Model.Poly Model.LP Model.ChkC12 Proofs.LPFacts.
+From Dimod Require Import Base.Util Model.Poly Model.LP Model.LPTok Model.ChkC12 Proofs.LPFacts Proofs.LPTokFacts.
 Import ListNotations.
 Open Scope Qc_scope.
 
@@ -90,7 +90,63 @@ Proof. exact refusal_causes. Qed.
 Print Assumptions C12_refusal_causes.
 
 (* ================================================================== *)
+(* the file as a token sequence and a reference parser for the writer's grammar (Model/LPTok.v):
+   sections, `obj:` / `label:` prefixes, signed coefficients, `+ [ ... ]/2` and `+ [ ... ]`
+   blocks with `*`, sense and right-hand side, `lb <= x <= ub` lines, Binary / General lists.
+   Names and numerals are abstract tokens: character-level lexing is not modelled. *)
+
+Theorem C12_parse_print_cqm : forall m, parse_tokens (print_cqm m) = Some m.
+Proof. exact parse_print_cqm. Qed.
+Print Assumptions C12_parse_print_cqm.
+
+(* text level: each token written as a blank-free word, lines broken by _WidthLimitedFile at any
+   column; splitting into words, lexing and parsing gives the printed model back *)
+Theorem C12_lp_text_roundtrip :
+  forall (render : token -> text) (lex : text -> option token) m,
+    (forall t, no_blank (render t)) -> (forall t, lex (render t) = Some t) ->
+    parse_text lex (wrap (writes_of render (print_cqm m))) = Some m.
+Proof. exact lp_text_roundtrip. Qed.
+Print Assumptions C12_lp_text_roundtrip.
+
+(* writer conventions then reader conventions (types from the sections, clamped bounds, 1/2 on
+   objective quadratic terms): the same variables, types, bounds and constraint labels *)
+Theorem C12_cqm_lpmodel_roundtrip :
+  forall c, NoDup (map vi_label (q_vars c)) -> Forall var_wf (q_vars c) ->
+    let c' := cqm_of_lpmodel (map vi_label (q_vars c)) (lpmodel_of_cqm c) in
+    q_vars c' = q_vars c /\
+    q_obj c' = read_objective (write_objective (q_obj c)) /\
+    q_cons c' = map (fun lc => (fst lc, read_constraint (write_constraint (snd lc)))) (q_cons c) /\
+    (forall s, energy (q_obj c') s = energy (q_obj c) s).
+Proof. exact cqm_lpmodel_roundtrip. Qed.
+Print Assumptions C12_cqm_lpmodel_roundtrip.
+
+(* the property, end to end on the model: dump, wrap, split, lex, parse, convert *)
+Theorem C12_lp_model_text_roundtrip :
+  forall (render : token -> text) (lex : text -> option token) c,
+    (forall t, no_blank (render t)) -> (forall t, lex (render t) = Some t) ->
+    NoDup (map vi_label (q_vars c)) -> Forall var_wf (q_vars c) ->
+    exists m, parse_text lex (wrap (writes_of render (print_cqm (lpmodel_of_cqm c)))) = Some m /\
+      let c' := cqm_of_lpmodel (map vi_label (q_vars c)) m in
+      q_vars c' = q_vars c /\
+      map fst (q_cons c') = map fst (q_cons c) /\
+      (forall s, energy (q_obj c') s = energy (q_obj c) s) /\
+      Forall2 (fun a b => forall s, holds (snd a) s <-> holds (snd b) s) (q_cons c') (q_cons c).
+Proof. exact lp_model_text_roundtrip. Qed.
+Print Assumptions C12_lp_model_text_roundtrip.
+
+(* ================================================================== *)
 (* hypotheses are satisfiable on non-trivial data *)
+
+Example C12_ex_parse :
+  let m := mkLpModel (mkLpObj [(0%nat, qc 2 1); (1%nat, qc (-3) 2)] [(1%nat, 0%nat, qc 2 1); (1%nat, 1%nat, qc 1 2)] (qc 3 1))
+             [(0%nat, mkLpCon [(0%nat, 1)] [(1%nat, 0%nat, qc (-2) 1)] Le (qc 3 2)); (1%nat, mkLpCon [] [] Ge (qc (-1) 1))]
+             [(1%nat, qc (-3) 1, qc 5 1)] [0%nat] [1%nat] in
+  List.length (print_cqm m) = 52%nat /\
+  match parse_tokens (print_cqm m) with
+  | Some m' => Nat.eqb (List.length (m_cons m')) 2 && list_eqb Nat.eqb (m_binary m') [0%nat]
+  | None => false
+  end = true.
+Proof. vm_compute. split; reflexivity. Qed.
 
 (* " obj: " "+ 2 x " ... : a break is inserted before the write that would pass column 79 *)
 Example C12_ex_wrap :
